@@ -318,8 +318,8 @@ def fallbackParse (fty : FieldTy) (tok : Tok) : Res Val :=
   | .error e => .error e
 
 /-- `_parse_multiple_containers(container_type)(token)` = `_parse_container(container_type)(token)`
-    (utils.py:617-691): try `ast.literal_eval`; a non-container literal gives the BARE `T(literal)`
-    (this is D13); any exception falls back to the splitter. -/
+    (utils.py:617-691): try `ast.literal_eval`; a non-container literal gives the one-element
+    container `factory([T(literal)])`; any exception falls back to the splitter. -/
 def parseContainerTok (fty : FieldTy) (tok : Tok) : Res Val :=
   let t := fty.itemTy
   match tok with
@@ -331,7 +331,7 @@ def parseContainerTok (fty : FieldTy) (tok : Tok) : Res Val :=
       | .unmodelled => .error .unmodelled
       | .fail e => .error e
       | .ok none => fallbackParse fty tok
-      | .ok (some s) => .ok (.sc s)
+      | .ok (some s) => .ok (mkContainer fty [s])   -- `factory([T(literal)])`
   | .spaced _ => fallbackParse fty tok          -- SyntaxError
   | .comma ws | .bracket _ ws =>
     match litWords ws with
@@ -373,56 +373,20 @@ inductive DefaultSrc
   | parents (ds : List Val)
   deriving DecidableEq, Repr
 
-/-- a Python object that `default` may be before packaging: one value, or a Python list of values -/
-inductive Raw
-  | one (v : Val)
-  | many (vs : List Val)
-  deriving DecidableEq, Repr
-
-/-- lines 725-764: the un-packaged default (`none` = `None`) -/
-def rawDefault : DefaultSrc → Option Raw
+/-- lines 725-772: the un-packaged default and the `per_destination` flag (`none` = `None`).
+    `len(self.parent.defaults) == 1` ⇒ that single instance's attribute, not per destination. -/
+def rawDefault : DefaultSrc → Option (List Val × Bool)
   | .field none => none
-  | .field (some v) => some (.one v)
-  | .parents [d] => some (.one d)           -- `len(self.parent.defaults) == 1`
-  | .parents ds => some (.many ds)
+  | .field (some v) => some ([v], false)
+  | .parents [d] => some ([d], false)
+  | .parents ds => some (ds, true)
 
-/-- `len(default)` (only evaluated for list/tuple-typed fields) -/
-def Raw.len : Raw → Option Nat
-  | .one (.list l) => some l.length
-  | .one (.tuple l) => some l.length
-  | .one (.sc (.str s)) => some s.length
-  | .one (.sc _) => none                     -- TypeError: outside the fragment
-  | .many vs => some vs.length
-
-/-- `isinstance(default, list)` -/
-def Raw.isPyList : Raw → Bool
-  | .one (.list _) => true
-  | .many _ => true
-  | _ => false
-
-/-- a Python list seen as a list of values -/
-def Raw.items : Raw → List Val
-  | .one (.list l) => l.map Val.sc
-  | .many vs => vs
-  | .one v => [v]
-
-/-- lines 773-788: packaging for a reused field with `n` destinations.
-    `if is_tuple_or_list(type) and len(default) != n: [default]*n  elif not isinstance(default, list):
-    [default]*n`; then `assert len(default) == n`. -/
-def defaultPack (fty : FieldTy) (n : Nat) (raw : Raw) : Res (List Val) :=
-  let wrapAll : Res (List Val) := match raw with
-    | .one v => .ok (List.replicate n v)
-    | .many _ => .error .unmodelled            -- a list of lists of per-destination values
-  if fty.isContainer then
-    match raw.len with
-    | none => .error .unmodelled
-    | some len =>
-      if len ≠ n then wrapAll
-      else if !raw.isPyList then wrapAll
-      else .ok raw.items                       -- D12: a list default of length n is taken apart
-  else if !raw.isPyList then wrapAll
-  else if raw.items.length = n then .ok raw.items
-  else .error (.raise .assertionError)
+/-- lines 781-793: packaging for a reused field with `n` destinations:
+    `if not per_destination: default = [default] * n`; then `assert len(default) == n`. -/
+def defaultPack (n : Nat) : List Val × Bool → Res (List Val)
+  | ([v], false) => .ok (List.replicate n v)
+  | (_, false) => .error .unmodelled           -- not produced by `rawDefault`
+  | (ds, true) => if ds.length = n then .ok ds else .error (.raise .assertionError)
 
 /-- the `default=` handed to argparse: enum members by NAME (field_wrapper.py:343-352) -/
 def argDefault (fty : FieldTy) (packed : List Val) : List Val :=
@@ -502,9 +466,10 @@ def isRequired (src : DefaultSrc) : Bool := (rawDefault src).isNone
 
 /-- set-up part (`arg_options`): the packaged default; `none` = `None` -/
 def setupDefault (fty : FieldTy) (n : Nat) (src : DefaultSrc) : Res (Option (List Val)) :=
-  match rawDefault src with
+  if src = .parents [] then .error .unmodelled   -- no default instance: the code reads the field itself
+  else match rawDefault src with
   | none => .ok none
-  | some raw => match defaultPack fty n raw with
+  | some raw => match defaultPack n raw with
     | .ok p => .ok (some (argDefault fty p))
     | .error e => .error e
 
@@ -630,20 +595,28 @@ def appendNew : List Str → List Str → List Str
   | acc, [] => acc
   | acc, d :: ds => if d ∈ acc then appendNew acc ds else appendNew (acc ++ [d]) ds
 
+/-- `self.defaults.extend(other.defaults)` (dataclass_wrapper.py:437).  The `defaults` property of a
+    ROOT wrapper (no `_field`) that holds no default instance returns a fresh `[]`
+    (dataclass_wrapper.py:258-259), so extending it is lost; a nested wrapper returns its own
+    `_defaults` list, which is extended in place. -/
+def extendDefaults (root : Bool) (f1 f2 : List Nat) : List Nat :=
+  if root && f1.isEmpty then [] else f1 ++ f2
+
 mutual
 /-- `DataclassWrapper.merge` (dataclass_wrapper.py:422-445): destinations appended when new,
-    `defaults.extend`, children merged pairwise (`zip`: surplus children are ignored).
-    Default instances are identified by a number (their registration index). -/
-def DW.merge : DW → DW → DW
-  | .mk d1 f1 c1, .mk d2 f2 c2 => .mk (appendNew d1 d2) (f1 ++ f2) (mergeChildren c1 c2)
+    `defaults.extend`, children (never roots) merged pairwise (`zip`: surplus children are kept
+    as they are).  Default instances are identified by a number (their registration index). -/
+def DW.merge (root : Bool) : DW → DW → DW
+  | .mk d1 f1 c1, .mk d2 f2 c2 => .mk (appendNew d1 d2) (extendDefaults root f1 f2) (mergeChildren c1 c2)
 def mergeChildren : List DW → List DW → List DW
   | [], _ => []
   | c :: cs, [] => c :: cs
-  | c :: cs, o :: os => DW.merge c o :: mergeChildren cs os
+  | c :: cs, o :: os => DW.merge false c o :: mergeChildren cs os
 end
 
 /-- `_fix_conflict_merge` (conflicts.py:317-354) when all conflicting wrappers sit at the same
-    nesting level: the first (registration order) absorbs the others in registration order. -/
-def mergeAll (first : DW) (others : List DW) : DW := others.foldl DW.merge first
+    nesting level: the first (registration order) absorbs the others in registration order.
+    `root` ⇔ the conflicting wrappers were registered directly (`parser.add_arguments`). -/
+def mergeAll (root : Bool) (first : DW) (others : List DW) : DW := others.foldl (DW.merge root) first
 
 end SpVerif.Merge
